@@ -521,6 +521,7 @@ fn write_evidence(
             "samples": samples,
             "exhaustive": plan.exhaustive,
             "planned_units": plan.units.len(),
+            "plan": plan.extra,
             "completed_all_units": complete,
             "simulated_runs_per_hour": per_hour.round(),
             "simulated_time_covered_s": stats.sim_time_ms / 1000,
